@@ -47,7 +47,7 @@ inline PathsD to_d(const Paths64& pp, double div) {
 inline PathD to_d1(const Path64& p, double div) { PathD q; for (auto& pt : p) q.emplace_back((double)pt.x / div, (double)pt.y / div); return q; }
 
 // ------------------------------------------------------------------ generation
-struct GenLimits { int maxexp_bool = 29, maxexp_other = 29; };
+struct GenLimits { int maxexp_bool = 29, maxexp_other = 29; int force_exp_bool = 0; };
 
 inline int64_t pick_R(Rng& r, int maxexp) {
   int e = r.irange(2, maxexp);
@@ -75,6 +75,7 @@ inline Case gen_op(Rng& r, int op, const GenLimits& lim) {
   Case c; c.seti("op", op);
   bool boolean = is_boolean_family(op);
   int64_t R = pick_R(r, boolean ? lim.maxexp_bool : lim.maxexp_other);
+  if (boolean && lim.force_exp_bool > 0) R = ((int64_t)1 << lim.force_exp_bool) - r.range(0, ((int64_t)1 << lim.force_exp_bool) / 4);   // exploration aid
   bool isD = (op == BOOLD_PATHS || op == BOOLD_TREE || op == HELPERSD || op == INFLATED || op == RECTD || op == MINKD || op == UTILD || op == EXPORTD);
   int prec = r.irange(-8, 8);
   if (isD) {
@@ -98,6 +99,17 @@ inline Case gen_op(Rng& r, int op, const GenLimits& lim) {
   if (r.chance(0.8)) { if (x0 > x1) std::swap(x0, x1); if (y0 > y1) std::swap(y0, y1); }
   if (r.chance(0.1)) x1 = x0;
   c.p64["rect"] = Paths64{ Path64{ Point64(x0, y0), Point64(x1, y1) } };
+  // rectangle clipping: dense star polygons / zig-zags whose segments pass right through a small rectangle and look at its
+  // corners from many outside zones (many corner insertions per path; per-path scratch sized from the vertex count)
+  if ((op == RECT64 || op == RECTLINES64 || op == RECTD || op == EXPORT64 || op == EXPORTD) && r.chance(0.35) && R >= 64) {
+    int64_t h = std::max<int64_t>(1, R / r.irange(6, 40));
+    c.p64["rect"] = Paths64{ Path64{ Point64(-h, -h), Point64(h, h + r.range(0, h)) } };
+    int n = r.irange(5, 41), k = r.irange(2, std::max(2, n / 2));
+    Paths64 S; S.push_back(gen::star_polygon(r, r.range(-h / 2, h / 2), r.range(-h / 2, h / 2), (double)R * r.real(0.5, 0.95), n, k));
+    if (r.coin()) { Path64 z; int m = r.irange(6, 40); for (int q = 0; q < m; ++q) { double a = 6.283185307179586 * q / m + ((q & 1) ? 3.141592653589793 : 0.0); z.emplace_back((int64_t)(0.9 * (double)R * std::cos(a)), (int64_t)(0.9 * (double)R * std::sin(a))); } S.push_back(z); }
+    if (r.chance(0.3)) S.insert(S.begin(), gen::box(-R / 2, -R / 2, R / 2, R / 2));   // a path that first grows the scratch space
+    c.p64["S"] = S;
+  }
   return c;
 }
 
